@@ -168,6 +168,6 @@ def afStepR (k : Nat) (buffered : Bool) (z : α) (s : AFState α) (i : AFIn α) 
 /-- A schedule in which the reset is high throughout. -/
 def runRst (k : Nat) (b : Bool) (z : α) (s : AFState α) : List (AFIn α) → AFState α
   | [] => s
-  | i :: is => runRst (afStepR k b z s i true) is
+  | i :: is => runRst k b z (afStepR k b z s i true) is
 
 end Litex.Cdc
